@@ -13,5 +13,7 @@ const NUM_BLOCKS_PER_FILE: usize = 1 << 12;
 const NUM_BLOCKS_PER_FILE: usize = 4;
 
 const FILE_NUM_BYTES: usize = FRAME_NUM_BYTES * NUM_BLOCKS_PER_FILE;
+#[cfg(mrecordlog_verif)]
+pub(crate) const VERIF_FILE_NUM_BYTES: usize = FILE_NUM_BYTES;
 #[cfg(test)]
 mod tests;
